@@ -5,14 +5,16 @@
  "enforce": ["SHA256_Transform_shani"],
  "replace": [],
  "annotate": ["alg/sha256_shani.c"],
- "defines": ["VERIF_HALLOC", "CPUSUPPORT_X86_SHANI=1", "CPUSUPPORT_X86_SSSE3=1", "SHA_STAGES_PER_PART=1", "SHA_GHOST_DEFINITIONAL"],
+ "defines": ["VERIF_HALLOC", "CPUSUPPORT_X86_SHANI=1", "CPUSUPPORT_X86_SSSE3=1"],
  "models": ["models/x86_sse2.c", "models/x86_sha.c"],
  "cflags": ["-msse2", "-mssse3", "-msha"],
- "matrix": {"SHA_PART": [0, 1, 2, 3, 4, 5, 6, 7, 8, 9, 10, 11, 12, 13, 14, 15]},
+ "matrix": {"SHA_PART": [0, 1, 2, 3]},
  "loop_contracts": false,
  "tier": "thorough",
- "timeout": 900, "thorough_timeout": 900,
- "assumptions": ["SHA256RNDS2, SHA256MSG1, SHA256MSG2 modelled from the Intel SDM (models/x86_sha.c); PSHUFB, PALIGNR, PSHUFD, PUNPCKL/HQDQ, PSRLDQ (models/x86_sse2.c)",
+ "timeout": 600, "thorough_timeout": 600,
+ "assumptions": [
+                 "STATUS: UNDECIDED in this sandbox -- every cut-point obligation discharges in 0.3-8 s when checked alone (cbmc --property X, measured for all classes), but the driver checks all obligations of a group in one solver query, which does not finish in 50 min (default SAT and kissat, also with 16 one-stage instances)",
+                 "SHA256RNDS2, SHA256MSG1, SHA256MSG2 modelled from the Intel SDM (models/x86_sha.c); PSHUFB, PALIGNR, PSHUFD, PUNPCKL/HQDQ, PSRLDQ (models/x86_sse2.c)",
                  "specification: spec/sha256_spec.h (FIPS 180-4 6.2.2), run by the harness; 17 cut-point lemmas (assert, then assume) split the equivalence into four-round steps; the 4 matrix instances assert a quarter of the cut points each (see contracts/c03_sha_ghost.h)",
                  "no loops in the function"]
 }
